@@ -8,6 +8,7 @@ import (
 	"os"
 	"path/filepath"
 	"sort"
+	"strconv"
 	"strings"
 )
 
@@ -126,6 +127,98 @@ func mentions(fd *ast.FuncDecl, suffix string) bool {
 	return found
 }
 
+// onlyProbes: the function mentions the selector, and every mention is the operand of a
+// type assertion (it inspects the value, it does not call through it).
+func onlyProbes(fd *ast.FuncDecl, suffix string) bool {
+	total, asserted := 0, 0
+	ast.Inspect(fd.Body, func(n ast.Node) bool {
+		switch x := n.(type) {
+		case *ast.TypeAssertExpr:
+			if strings.HasSuffix(selString(x.X), suffix) {
+				asserted++
+			}
+		case *ast.SelectorExpr:
+			if strings.HasSuffix(selString(x), suffix) {
+				total++
+				return false
+			}
+		}
+		return true
+	})
+	return total > 0 && total == asserted
+}
+
+func callsIn(n ast.Node, name string) bool {
+	found := false
+	ast.Inspect(n, func(x ast.Node) bool {
+		if c, ok := x.(*ast.CallExpr); ok {
+			if se, ok := c.Fun.(*ast.SelectorExpr); ok && se.Sel.Name == name {
+				found = true
+			}
+		}
+		return !found
+	})
+	return found
+}
+
+func mentionsNode(n ast.Node, suffix string) bool {
+	found := false
+	ast.Inspect(n, func(x ast.Node) bool {
+		if se, ok := x.(*ast.SelectorExpr); ok && strings.HasSuffix(selString(se), suffix) {
+			found = true
+		}
+		return !found
+	})
+	return found
+}
+
+// packageVars lists the package-level variables of the non-test files of a directory.
+func packageVars(dir string) ([]string, error) {
+	ents, err := os.ReadDir(dir)
+	if err != nil {
+		return nil, err
+	}
+	fset := token.NewFileSet()
+	var out []string
+	for _, e := range ents {
+		n := e.Name()
+		if e.IsDir() || !strings.HasSuffix(n, ".go") || strings.HasSuffix(n, "_test.go") {
+			continue
+		}
+		f, err := parser.ParseFile(fset, filepath.Join(dir, n), nil, 0)
+		if err != nil {
+			return nil, err
+		}
+		for _, d := range f.Decls {
+			if gd, ok := d.(*ast.GenDecl); ok && gd.Tok == token.VAR {
+				for _, sp := range gd.Specs {
+					for _, id := range sp.(*ast.ValueSpec).Names {
+						out = append(out, strconv.Quote(id.Name))
+					}
+				}
+			}
+		}
+	}
+	sort.Strings(out)
+	return out, nil
+}
+
+func callsMethod(fd *ast.FuncDecl, name string) bool {
+	found := false
+	ast.Inspect(fd.Body, func(n ast.Node) bool {
+		if c, ok := n.(*ast.CallExpr); ok {
+			if se, ok := c.Fun.(*ast.SelectorExpr); ok && se.Sel.Name == name {
+				found = true
+			}
+			if id, ok := c.Fun.(*ast.Ident); ok && id.Name == name {
+				found = true
+			}
+		}
+		return !found
+	})
+	return found
+}
+
 // Facts regenerates lean/XmppModel/Generated/C05.lean: the lock discipline of
 // every function of the root package that touches the output encoder.
 func Facts(repo string) (string, error) {
@@ -135,6 +228,7 @@ func Facts(repo string) (string, error) {
 	}
 	type row struct{ name, class string }
 	var rows []row
+	var probes []string
 	twLocks, closeUnlocks := "none", "none"
 	for _, fd := range fds {
 		rn := recvName(fd)
@@ -171,6 +265,11 @@ func Facts(repo string) (string, error) {
 		}
 		class := "unlocked"
 		switch {
+		case onlyProbes(fd, ".out.e"):
+			// looks at the encoder's state (type assertion), writes nothing: its callers must
+			// hold the lock (fact probeCallers)
+			class = "probe"
+			probes = append(probes, fd.Name.Name)
 		case rn == "lockWriteCloser":
 			class = "holder"
 		case fd.Name.Name == "negotiateSession" || fd.Name.Name == "writeStreamFeatures":
@@ -193,6 +292,72 @@ func Facts(repo string) (string, error) {
 		sb.WriteString("def transmitFns : Option (List (String × String)) := none\n")
 	} else {
 		fmt.Fprintf(&sb, "/-- every function that mentions `….out.e` and how it is protected -/\ndef transmitFns : Option (List (String × String)) := some [%s]\n", strings.Join(l, ", "))
+	}
+	// every caller of a probe is itself a locked function or a method of the lock holder
+	classOf := map[string]string{}
+	for _, r := range rows {
+		classOf[r.name] = r.class
+	}
+	var pc []string
+	for _, fd := range fds {
+		rn := recvName(fd)
+		name := fd.Name.Name
+		if rn != "" && rn != "Session" {
+			name = rn + "." + name
+		}
+		for _, p := range probes {
+			if callsMethod(fd, p) {
+				cl := classOf[name]
+				if cl == "" {
+					cl = "unlocked"
+					if LocksWholeBody(fd) {
+						cl = "locked"
+					}
+				}
+				pc = append(pc, fmt.Sprintf("(%q, %q)", name, cl))
+			}
+		}
+	}
+	sort.Strings(pc)
+	fmt.Fprintf(&sb, "def probeCallers : Option (List (String × String)) := some [%s]\n", strings.Join(pc, ", "))
+	// methods of stanzaEncoder: anything besides EncodeToken could touch the depth counter
+	// behind the model's back (a Flush that resets it, …)
+	var sem []string
+	guards := map[string]bool{}
+	for _, fd := range fds {
+		if recvName(fd) == "stanzaEncoder" {
+			sem = append(sem, strconv.Quote(fd.Name.Name))
+		}
+		name := fd.Name.Name
+		if rn := recvName(fd); rn != "" && rn != "Session" {
+			name = rn + "." + name
+		}
+		// calls outputBroken in an if that returns, before any other statement mentions .out.e
+		for _, st := range Stmts(fd) {
+			if is, ok := st.(*ast.IfStmt); ok && callsIn(is.Cond, "outputBroken") {
+				guards[name] = true
+				break
+			}
+			if mentionsNode(st, ".out.e") {
+				if _, isDefer := st.(*ast.DeferStmt); !isDefer {
+					break
+				}
+			}
+		}
+	}
+	sort.Strings(sem)
+	fmt.Fprintf(&sb, "def stanzaEncoderMethods : Option (List String) := some [%s]\n", strings.Join(sem, ", "))
+	var gl []string
+	for _, n := range []string{"Encode", "EncodeElement", "send"} {
+		gl = append(gl, fmt.Sprintf("(%q, %v)", n, guards[n]))
+	}
+	fmt.Fprintf(&sb, "def brokenGuard : Option (List (String × Bool)) := some [%s]\n", strings.Join(gl, ", "))
+	// package-level variables of internal/marshal: state shared between calls and sessions
+	mg, err := packageVars(filepath.Join(repo, "internal", "marshal"))
+	if err != nil {
+		sb.WriteString("def marshalGlobals : Option (List String) := none\n")
+	} else {
+		fmt.Fprintf(&sb, "def marshalGlobals : Option (List String) := some [%s]\n", strings.Join(mg, ", "))
 	}
 	fmt.Fprintf(&sb, "def tokenWriterLocks : Option Bool := %s\n", twLocks)
 	fmt.Fprintf(&sb, "def closeUnlocks : Option Bool := %s\n", closeUnlocks)
